@@ -76,5 +76,74 @@ func init() {
 			o.Facts[it[2]] = fmtS + " <- " + args
 			o.Lean.WriteString("def " + it[2] + " : String × String := (" + LeanStr(fmtS) + ", " + LeanStr(args) + ")\n")
 		}
+		// every other id derivation: `<var> := fmt.Sprintf(fmt, args…)` / `<var> := hex.EncodeToString(x)` inside a method
+		sprintf := func(file, recv, meth, variable string) (string, string) {
+			ff := o.ParseFile(file)
+			fmtS, args := "", ""
+			if d := FindFunc(ff, recv, meth); d != nil {
+				Walk(d.Body, func(n ast.Node) bool {
+					if as, ok := n.(*ast.AssignStmt); ok && len(as.Lhs) == 1 && Src(as.Lhs[0]) == variable && len(as.Rhs) == 1 {
+						if c, ok := as.Rhs[0].(*ast.CallExpr); ok {
+							xs := []string{}
+							switch Src(c.Fun) {
+							case "fmt.Sprintf":
+								fmtS = strings.Trim(Src(c.Args[0]), "\"")
+								for _, a := range c.Args[1:] {
+									xs = append(xs, Src(a))
+								}
+							default:
+								fmtS = Src(c.Fun)
+								for _, a := range c.Args {
+									xs = append(xs, Src(a))
+								}
+							}
+							args = strings.Join(xs, ",")
+						}
+					}
+					return true
+				})
+			}
+			return fmtS, args
+		}
+		for _, it := range [][5]string{
+			{"chains/evm/listener/eventHandlers/retry.go", "RetryV1EventHandler", "HandleEvents", "messageID", "evmRetryV1Fmt"},
+			{"chains/evm/listener/eventHandlers/retry.go", "RetryV2EventHandler", "HandleEvents", "messageID", "evmRetryV2Fmt"},
+			{"chains/substrate/listener/event-handlers.go", "RetryEventHandler", "HandleEvents", "messageID", "subRetryFmt"},
+		} {
+			f1, a1 := sprintf(it[0], it[1], it[2], it[3])
+			o.Facts[it[4]] = f1 + " <- " + a1
+			o.Lean.WriteString("def " + it[4] + " : String × String := (" + LeanStr(f1) + ", " + LeanStr(a1) + ")\n")
+		}
+		// BTC executor: the transfer-wide id is the FIRST assignment to sessionID in executeResourceProps, the per-input id
+		// the one inside the loop over tx.TxIn; Substrate executor: NewSigning(msg, messageID, messageID, …)
+		bf := o.ParseFile("chains/btc/executor/executor.go")
+		all := []string{}
+		if d := FindFunc(bf, "Executor", "executeResourceProps"); d != nil {
+			Walk(d.Body, func(n ast.Node) bool {
+				if as, ok := n.(*ast.AssignStmt); ok && len(as.Lhs) == 1 && Src(as.Lhs[0]) == "sessionID" {
+					all = append(all, Src(as.Rhs[0]))
+				}
+				return true
+			})
+		}
+		o.Facts["btc_session_assignments"] = all
+		o.Lean.WriteString("def btcSessionAssignments : List String := " + LeanStrList(all) + "\n")
+		sf := o.ParseFile("chains/substrate/executor/executor.go")
+		sargs := []string{}
+		smsg := ""
+		if d := FindFunc(sf, "Executor", "Execute"); d != nil {
+			Walk(d.Body, func(n ast.Node) bool {
+				if c, ok := n.(*ast.CallExpr); ok && Src(c.Fun) == "signing.NewSigning" && len(c.Args) >= 3 {
+					sargs = []string{Src(c.Args[1]), Src(c.Args[2])}
+				}
+				if as, ok := n.(*ast.AssignStmt); ok && len(as.Lhs) == 1 && Src(as.Lhs[0]) == "messageID" {
+					smsg = Src(as.Rhs[0])
+				}
+				return true
+			})
+		}
+		sargs = append([]string{smsg}, sargs...)
+		o.Facts["sub_session_args"] = sargs
+		o.Lean.WriteString("def subSessionArgs : List String := " + LeanStrList(sargs) + "\n")
 	}
 }
